@@ -142,6 +142,37 @@ def gen_texts(seed, tier):
         for op in ['==', '!=', '<', '<=', '>', '>=']:
             texts += [f'date {op} {lit}', f'txn.date {op} {lit}', f'{lit} {op} date', f'[r for r in rows if r.date {op} {lit}]',
                       f'any(r.date {op} {lit} for r in rows)', f'date {op} {lit} {op} {lit}']
+    # every attribute a value's own Python type has, on receivers of that type reached every way the language offers
+    # (a convenience that resolves "date parts" or "row keys" through getattr hands out methods)
+    typed = [(datetime.date(2025, 1, 1), ['date', 'txn.date', 'rows[0].date', '(d := date)', 'next(r.date for r in rows)',
+                                          '[r.date for r in rows][0]', 'max(r.date for r in rows)']),
+             ('', ['description', 'txn.description', 'field.memo', 'rows[0].item', 'source', '"lit"', 'trim(description)', 'label']),
+             (1.5, ['amount', 'txn.amount', 'rows[0].amount', 'abs(amount)', 'threshold']),
+             (1, ['month', 'year', 'day', 'txn.weekday', 'len(rows)', '1']),
+             ({}, ['rows[0]', 'field', 'txn', 'next(r for r in rows)']),
+             ([], ['rows', '[r for r in rows]', 'lst'])]
+    for proto, recvs in typed:
+        for a in sorted(set(dir(proto))):
+            if a.startswith('__') and tier == 'quick':
+                continue  # dunders are swept on every receiver above
+            for r in recvs:
+                texts += [f'{r}.{a}', f'{r}.{a.upper()}', f'trim({r}.{a})']
+                if tier != 'quick' or r == recvs[0]:
+                    texts += [f'{r}.{a}()', f'"%s" % {r}.{a}', f'{r}.{a.title()}']
+    # a name that was just CALLED (function) or just used as an attribute/method, then used bare: the evaluator must not have
+    # remembered the callable under that name
+    FUNCS = ['abs', 'anyof', 'contains', 'extract', 'fuzzy', 'lowercase', 'normalized', 'regex', 'regex_replace', 'round', 'split',
+             'startswith', 'strip_prefix', 'strip_suffix', 'substring', 'trim', 'uppercase', 'len', 'sum', 'min', 'max', 'any',
+             'all', 'next', 'exists', 'by', 'count', 'avg', 'period']
+    ARGS = ['()', '("S")', '(description)', '(description, "S")', '("S", "T")', '(description, "S", "T")', '(amount)', '(amount, 1)',
+            '([1, 2])', '(r for r in rows)', '("-", 0)', '(description, 0, 3)', '(0, 3)', '(field.memo)']
+    for f in FUNCS:
+        for a in ARGS:
+            texts += [f'[{f}{a}, {f}][1]', f'({f}{a} or 1) and {f}', f'{f} if ({f}{a} or 1) else 0',
+                      f'[{f} for r in rows if ({f}{a} or 1)]', f'trim({f}{a}) + "-" + trim({f})']
+    for m in ['lower', 'upper', 'strip', 'startswith', 'endswith', 'replace', 'memo', 'item', 'amount', 'description']:
+        for r in ['description', 'field', 'rows[0]', 'txn']:
+            texts += [f'({r}.{m}() or 1) and {m}', f'({r}.{m} or 1) and {m}', f'[{r}.{m}, {m}][1]']
     # node kinds x positions, depth 2
     for s in NODE_SNIPPETS:
         for c in CONTEXTS:
